@@ -539,7 +539,10 @@ class Queue(Greenlet):
         if not self.relay:
             return
         self._pool_spawn('store', self._load_all)
-        self._pool_spawn('store', self._wait_store)
+        # The listener runs for as long as the queue does: in a bounded store
+        # pool it would keep one slot (the only one, with store_pool=1) away
+        # from the storage operations for ever.
+        gevent.spawn(self._wait_store)
         while True:
             self.queued_lock.acquire()
             try:
